@@ -1,21 +1,18 @@
 SPECIFICATION Spec
 CONSTANTS
   Classes <- Classes4
-  Outs <- OutsC04
-  Durs = {0, 2}
+  Outs <- OutsC12
+  Durs = {2}
   Rets <- RetsOne
   Advs <- AdvsExact
   Decs <- DecsAll
   BFaults <- BFaultsNone
-  Ras <- RasNone
+  Ras <- RasSome
   Modes = {"exec"}
   RunGaps <- GapsNone
   NRuns = 1
-  Configs <- ConfigsC11
-  RecordHist = FALSE
+  Configs <- ConfigsC12
+  RecordHist = TRUE
 INVARIANT NoViolation
-INVARIANT AttemptsBounded
-INVARIANT InvokeWithinDeadline
-INVARIANT SleepWithinRemaining
-INVARIANT DeliveriesRelated
+INVARIANT ExportBehaviours
 CHECK_DEADLOCK FALSE
